@@ -100,6 +100,8 @@ type Interp struct {
 	chanSeq  int
 	sched    *Sched
 	curFn    string
+	pcH1, pcH2 uint64
+	cache    *SatCache
 	funcs    map[string]bool
 	probes   map[string]Value
 	ghostT   types.Type
@@ -140,6 +142,8 @@ func (it *Interp) assume(c *Term) {
 		return
 	}
 	it.pc = append(it.pc, c)
+	it.pcH1 = (it.pcH1 ^ uint64(c.id)) * 1099511628211
+	it.pcH2 = (it.pcH2+uint64(c.id)*0x9E3779B97F4A7C15)*0xBF58476D1CE4E5B9 ^ (it.pcH2 >> 29)
 	it.sol.Assert(c)
 	if it.model != nil && it.ctx.Eval(c, it.model, nil) != 1 {
 		it.model = nil
@@ -153,9 +157,32 @@ func (it *Interp) sat(c *Term) (string, Model) {
 	if c.IsFalse() {
 		return "unsat", nil
 	}
+	key := [3]uint64{it.pcH1, it.pcH2, uint64(c.id)}
+	if e, ok := it.cache.m[key]; ok && e.n == len(it.pc) {
+		it.cache.hits++
+		return e.res, e.model
+	}
 	it.nQueries++
-	return it.sol.Check(true, c)
+	r, m := it.sol.Check(true, c)
+	if r == "sat" || r == "unsat" {
+		it.cache.m[key] = satEntry{res: r, model: m, n: len(it.pc)}
+	}
+	return r, m
 }
+
+type satEntry struct {
+	res   string
+	model Model
+	n     int
+}
+
+// SatCache memoises solver answers per (path-condition sequence, query term) within one term table.
+type SatCache struct {
+	m    map[[3]uint64]satEntry
+	hits int
+}
+
+func newSatCache() *SatCache { return &SatCache{m: map[[3]uint64]satEntry{}} }
 
 // decide picks one of the mutually exclusive, jointly exhaustive conditions.
 func (it *Interp) decide(conds []*Term, what string) int {
@@ -246,6 +273,29 @@ func (it *Interp) branch(c *Term, what string) bool {
 func (it *Interp) concretize(t *Term, n int, what string) int {
 	if t.IsConst() {
 		return int(t.V)
+	}
+	K := it.job.MaxSymAlloc
+	if n > 2*K+8 && !strings.HasPrefix(what, "choice ") && what != "json length" {
+		// large range: follow the small values and the maximum, the rest is outside the bound
+		conds := make([]*Term, 0, K+3)
+		vals := make([]int, 0, K+3)
+		var rest []*Term
+		for i := 0; i <= K; i++ {
+			c := it.ctx.Eq(t, it.ctx.BV(uint64(i), t.S.W))
+			conds = append(conds, c)
+			vals = append(vals, i)
+			rest = append(rest, it.ctx.Not(c))
+		}
+		c := it.ctx.Eq(t, it.ctx.BV(uint64(n-1), t.S.W))
+		conds = append(conds, c)
+		vals = append(vals, n-1)
+		rest = append(rest, it.ctx.Not(c))
+		conds = append(conds, it.ctx.And(rest...))
+		d := it.decide(conds, what)
+		if d == len(conds)-1 {
+			panic(pathEnd{"truncated", fmt.Sprintf("symbolic size/index with range %d followed only for 0..%d and %d (%s, outside bound)", n, K, n-1, what)})
+		}
+		return vals[d]
 	}
 	conds := make([]*Term, n)
 	for i := 0; i < n; i++ {
@@ -1149,7 +1199,7 @@ func (it *Interp) makeSlice(x *ssa.MakeSlice, lv, cv Value) Value {
 		it.rtPanic("makeslice: len out of range")
 	}
 	if uint64(cp)*uint64(esz) > uint64(it.job.MaxConcreteAlloc) {
-		it.inconclusive(fmt.Sprintf("concrete allocation of %d bytes", cp*esz))
+		panic(pathEnd{"truncated", fmt.Sprintf("concrete allocation of %d bytes at %s (outside the modelled heap)", cp*esz, it.curSite)})
 	}
 	arr := it.newArrayCell(st.Elem(), cp, "make@"+it.curSite)
 	return &SliceV{arr: arr, off: 0, ln: n, cp: cp, elem: st.Elem()}
@@ -1895,6 +1945,50 @@ func (it *Interp) builtin(name string, args []Value, site *ssa.CallCommon) Value
 			}
 		}
 		return nil
+	case "SliceData":
+		sl := args[0].(*SliceV)
+		if sl.arr == nil || sl.cp == 0 {
+			return &Ptr{sref: sl}
+		}
+		return &Ptr{c: sl.arr.kids[sl.off], sref: sl}
+	case "StringData":
+		return &Ptr{strRef: args[0].(*StrV)}
+	case "String":
+		p := it.ptr(args[0])
+		n := it.term(args[1], "unsafe.String len")
+		if !n.IsConst() {
+			it.inconclusive("unsafe.String with symbolic length")
+		}
+		if p.sref != nil {
+			b := make([]*Term, n.V)
+			for i := range b {
+				b[i] = it.term(p.sref.arr.kids[p.sref.off+i].v, "byte")
+			}
+			return &StrV{b}
+		}
+		if p.strRef != nil {
+			return &StrV{p.strRef.b[:n.V]}
+		}
+		if n.V == 0 {
+			return &StrV{}
+		}
+		it.inconclusive("unsafe.String of pointer without provenance")
+	case "Slice":
+		p := it.ptr(args[0])
+		n := it.term(args[1], "unsafe.Slice len")
+		if !n.IsConst() {
+			it.inconclusive("unsafe.Slice with symbolic length")
+		}
+		if p.strRef != nil {
+			return it.newByteSlice(append([]*Term{}, p.strRef.b[:n.V]...), "unsafe.Slice")
+		}
+		if p.sref != nil {
+			return &SliceV{arr: p.sref.arr, off: p.sref.off, ln: int(n.V), cp: int(n.V), elem: p.sref.elem}
+		}
+		if n.V == 0 {
+			return &SliceV{elem: types.Typ[types.Uint8]}
+		}
+		it.inconclusive("unsafe.Slice of pointer without provenance")
 	case "ssa:wrapnilchk":
 		p := it.ptr(args[0])
 		if p.IsNil() {
